@@ -14,13 +14,27 @@
 //   match <pattern> <msg>                           rtosc_match / rtosc_match_path
 //   disp <tree> <cap|base> <loc 0|1> <base 0|1> <msg>   Ports::dispatch ; tree = sugar | sugarnull | spec
 //   reply <cap|base> <path> <litsig> <types> <args> default RtData reply/broadcast forwarding
-//   tlink <maxmsg> <nmsgs> <op;op;...>              ThreadLink write/read/hasNext history
+//   tlink <maxmsg> <nmsgs> <op;op;...>              ThreadLink write/read/hasNext history; element `f<o><n>` = an
+//                                                   operation <o> (l/a/w = write/writeArray/raw_write) whose argument
+//                                                   lies on an unreadable page is interrupted by the fault, the fault
+//                                                   handler runs operation <n> (l/a/w/h/r) on the SAME link and then
+//                                                   makes the page readable: an operation that waits for a lock held
+//                                                   by the interrupted one never returns -> `blocked=1` (watchdog)
 //   meta <leaf|mid|root> <portname> <key> <value>   metadata views
-// output: `hits=<n>[ first=<symbol> <per-symbol counts>] <functional summary>`
+// output: `hits=<n>[ first=<symbol> <per-symbol counts>][ threw=1][ emptycb=<n>:<port>] <functional summary>`
+//   threw=1   an exception left the realtime section (caught by the harness)
+//   emptycb   (disp on the sugar tree, selftest) ports of the tables built with the library's own macros whose
+//             callback is an empty std::function: the precondition under which the call-graph model leaves out the
+//             edge Ports::dispatch -> std::__throw_bad_function_call does not hold for the library's own tables
 #include "common.h"
 #include "rt_entries.h"
 #include <pthread.h>
 #include <dlfcn.h>
+#include <signal.h>
+#include <setjmp.h>
+#include <sys/mman.h>
+#include <sys/time.h>
+#include <unistd.h>
 #include <map>
 #include <deque>
 #include <new>
@@ -141,8 +155,18 @@ void  operator delete[](void *p, const std::nothrow_t &) noexcept { delete_impl(
 void  operator delete(void *p, size_t) noexcept { delete_impl(p); }
 void  operator delete[](void *p, size_t) noexcept { delete_impl(p); }
 
-#define RT_BEGIN() do { memset((void *) &g_hits, 0, sizeof(g_hits)); g_rt = 1; } while(0)
+static volatile int g_threw = 0;
+#define RT_BEGIN() do { memset((void *) &g_hits, 0, sizeof(g_hits)); g_threw = 0; g_rt = 1; } while(0)
 #define RT_END()   do { g_rt = 0; } while(0)
+
+// the realtime section: an exception that leaves it is caught here and reported (threw=1); what it allocated on its
+// way is counted like everything else
+template<class F> static inline void rt_section(F &&f)
+{
+    RT_BEGIN();
+    try { f(); } catch(...) { g_threw = 1; }
+    RT_END();
+}
 
 static std::string hits_str(void)
 {
@@ -153,6 +177,7 @@ static std::string hits_str(void)
         o << " first=" << (h.first ? h.first : "?") << " malloc=" << h.malloc_ << " calloc=" << h.calloc_
           << " realloc=" << h.realloc_ << " free=" << h.free_ << " memalign=" << h.memalign_ << " new=" << h.new_
           << " delete=" << h.delete_ << " lock=" << h.lock_;
+    if(g_threw) o << " threw=1";
     return o.str();
 }
 
@@ -398,6 +423,29 @@ static void init_objects(void)
     g_root.midp = &g_midp;
 }
 
+// every Port::cb of the tables built with the library's own macros (the sugar tree) must be a non-empty
+// std::function: the call-graph model leaves out the edge Ports::dispatch -> std::__throw_bad_function_call under
+// exactly this precondition
+static unsigned long g_ports_checked = 0, g_empty_cb = 0;
+static std::string   g_first_empty;
+static void scan_callbacks(const rtosc::Ports *p, const std::string &prefix, int depth)
+{
+    if(!p || depth > 8) return;
+    for(const rtosc::Port &port : *p) {
+        ++g_ports_checked;
+        if(!port.cb) {
+            if(!g_empty_cb) g_first_empty = prefix + port.name;
+            ++g_empty_cb;
+        }
+        if(port.ports) scan_callbacks(port.ports, prefix + port.name, depth + 1);
+    }
+}
+static std::string empty_cb_str(void)
+{
+    if(!g_empty_cb) return "";
+    return " emptycb=" + std::to_string(g_empty_cb) + ":" + hexs(g_first_empty.c_str());
+}
+
 // ---------------------------------------------------------------------------------------
 // ops
 // ---------------------------------------------------------------------------------------
@@ -423,7 +471,7 @@ static std::string op_build(const std::vector<std::string> &w)
     unsigned nargs = 0;
     uint64_t sum = 0;
     rte::Measure M = {0, 0, 0, false};
-    RT_BEGIN();
+    rt_section([&] {
     n1 = rte::build_array(g_buf1, cap, ad, A.types.c_str(), ap);
     n2 = rte::build_valist(g_buf2, cap, ad, A.types.c_str(), va);
     if(sig >= 0) n3 = rte::build_literal(g_buf3, cap, ad, sig, ap);
@@ -431,7 +479,7 @@ static std::string op_build(const std::vector<std::string> &w)
         rte::measure(g_buf1, n1, n1 / 2, ad, A.types.c_str(), ap, &M);
         sum = rte::read_all(g_buf1, &nargs);
     }
-    RT_END();
+    });
     std::ostringstream o;
     o << hits_str() << " len=" << n1 << " v=" << n2 << " l=" << n3 << " same=" << ((n1 == n2 && !memcmp(g_buf1, g_buf2, n1)) ? 1 : 0)
       << " m=" << M.len << "," << M.ring_len << "," << M.null_len << "," << (M.valid ? 1 : 0) << " r=" << nargs << ":" << hx64(sum);
@@ -449,10 +497,10 @@ static std::string op_msg(const std::vector<std::string> &w)
     unsigned nargs = 0;
     uint64_t sum = 0;
     rte::Measure M = {0, 0, 0, false};
-    RT_BEGIN();
+    rt_section([&] {
     rte::measure((const char *) m.data(), n, split, NULL, NULL, NULL, &M);
     sum = rte::read_all((const char *) m.data(), &nargs);
-    RT_END();
+    });
     std::ostringstream o;
     o << hits_str() << " m=" << M.len << "," << M.ring_len << "," << (M.valid ? 1 : 0) << " r=" << nargs << ":" << hx64(sum);
     return o.str();
@@ -489,10 +537,10 @@ static std::string op_bundle(const std::vector<std::string> &w)
     size_t n = 0;
     unsigned count = 0;
     uint64_t sum = 0;
-    RT_BEGIN();
+    rt_section([&] {
     n = rte::bundle_build(g_buf1, cap, tt, (int) elems.size(), e);
     if(n) sum = rte::bundle_read(g_buf1, n, &count);
-    RT_END();
+    });
     std::ostringstream o;
     o << hits_str() << " size=" << n << " elems=" << count << " r=" << hx64(sum);
     return o.str();
@@ -505,9 +553,9 @@ static std::string op_match(const std::vector<std::string> &w)
     if(!unhex(w[1], p) || !unhex(w[2], m)) return "bad-op";
     for(int i = 0; i < 8; ++i) { p.push_back(0); m.push_back(0); }
     unsigned r;
-    RT_BEGIN();
+    rt_section([&] {
     r = rte::match_all((const char *) p.data(), (const char *) m.data());
-    RT_END();
+    });
     std::ostringstream o;
     o << hits_str() << " r=" << r;
     return o.str();
@@ -539,12 +587,12 @@ static std::string op_disp(const std::vector<std::string> &w)
     d->loc_size = sizeof(locbuf);
     d->port = NULL;
     g_cb = 0;
-    RT_BEGIN();
+    rt_section([&] {
     if(loc) rte::dispatch_loc(ports, (const char *) m.data(), d, base);
     else    rte::dispatch_noloc(ports, (const char *) m.data(), d, base);
-    RT_END();
+    });
     std::ostringstream o;
-    o << hits_str() << " matches=" << d->matches << " cb=" << g_cb << " port=" << ((d->matches || g_cb) && d->port ? hexs(d->port->name) : std::string("-"));
+    o << hits_str() << (sugar ? empty_cb_str() : std::string()) << " matches=" << d->matches << " cb=" << g_cb << " port=" << ((d->matches || g_cb) && d->port ? hexs(d->port->name) : std::string("-"));
     if(cd) {
         // (the reply bytes themselves are not printed: `self` ports reply object addresses)
         o << " replies=" << cd->replies << " bcasts=" << cd->broadcasts << " arrays=" << cd->arrays << " chains=" << cd->chains
@@ -568,9 +616,9 @@ static std::string op_reply(const std::vector<std::string> &w)
     if(sig < 0 || sig >= rte::N_LIT_SIGS || A.types != rte::LIT_SIGS[sig]) return "bad-op";
     rtt::CapData *cd = cap ? rt_support_new_capdata() : NULL;
     rtosc::RtData *d = cap ? cd : rt_support_new_rtdata();
-    RT_BEGIN();
+    rt_section([&] {
     rte::reply_forward(d, (const char *) path.data(), sig, A.a.data(), A.types.c_str());
-    RT_END();
+    });
     std::ostringstream o;
     o << hits_str();
     if(cd) o << " replies=" << cd->replies << " bcasts=" << cd->broadcasts << " arrays=" << cd->arrays << " chains=" << cd->chains
@@ -580,11 +628,93 @@ static std::string op_reply(const std::vector<std::string> &w)
 }
 
 struct TlOp {
-    char kind;       // a = writeArray, l = literal write, w = raw_write, h = hasNext, r = guarded read, R = read, p = peak
+    char kind;       // a = writeArray, l = literal write, w = raw_write, h = hasNext, r = guarded read, R = read, p = peak,
+                     // f = interrupted operation (outer) + operation on the same link from the fault handler (nested)
+    char outer, nested;
     int  k;
     bytes addr, raw;
     Args A;
 };
+
+// ---- an operation interrupted in the middle + an operation on the same link while it is suspended ------------------
+// The outer operation reads its argument from a page without read permission: it faults somewhere inside the
+// library (after whatever it does on entry, e.g. taking a lock).  The SIGSEGV handler runs the nested operation on
+// the same link, makes the page readable and returns: the outer operation resumes.  A wait-free link completes both.
+// If the nested operation waits for something the suspended outer operation holds, it never returns: the interval
+// timer fires and the handler jumps back to the harness (result 2 = blocked).
+static char               *g_page = NULL;
+static rtosc::ThreadLink  *g_f_link = NULL;
+static char                g_f_nested = 0;
+static volatile int        g_f_state = 0;    // 0 armed, 1 nested operation running, 2 nested operation done
+static sigjmp_buf          g_f_jmp;
+static const char          PAGE_MSG[] = "/outer\0\0,s\0\0hello\0\0";      // 20 bytes: a message, and a string
+
+static void on_fault(int)
+{
+    if(g_f_state != 0 || !g_f_link) {       // not the fault we planted: die of it
+        signal(SIGSEGV, SIG_DFL);
+        return;
+    }
+    g_f_state = 1;
+    rtosc_arg_t a[1];
+    a[0].s = "nested";
+    uint64_t sum = 0;
+    switch(g_f_nested) {
+        case 'l': rte::tl_write_literal(g_f_link, "/nested", 1, a + 0); break;      // sig 1 = "i"
+        case 'a': rte::tl_write_array(g_f_link, "/nested", "s", a); break;
+        case 'w': rte::tl_raw_write(g_f_link, "/nested\0,\0\0"); break;
+        case 'h': (void) rte::tl_has_next(g_f_link, 0); break;
+        default:  if(rte::tl_has_next(g_f_link, 0)) (void) rte::tl_read(g_f_link, 0, &sum); break;
+    }
+    g_f_state = 2;
+    mprotect(g_page, 4096, PROT_READ | PROT_WRITE);
+}
+static void on_watchdog(int) { siglongjmp(g_f_jmp, 1); }
+
+// returns 0 = the outer operation did not fault (nothing tested), 1 = both operations completed, 2 = blocked
+static int __attribute__((noinline)) interrupted_op(rtosc::ThreadLink *tl, char outer, char nested)
+{
+    if(!g_page) {
+        g_page = (char *) mmap(NULL, 4096, PROT_READ | PROT_WRITE, MAP_PRIVATE | MAP_ANONYMOUS, -1, 0);
+        if(g_page == (char *) MAP_FAILED) { g_page = NULL; return 0; }
+    }
+    mprotect(g_page, 4096, PROT_READ | PROT_WRITE);
+    memset(g_page, 0, 4096);
+    memcpy(g_page, PAGE_MSG, sizeof(PAGE_MSG));
+    g_f_link = tl;
+    g_f_nested = nested;
+    g_f_state = 0;
+    struct sigaction sa, old_segv, old_alrm;
+    memset(&sa, 0, sizeof(sa));
+    sa.sa_handler = on_fault;
+    sa.sa_flags = SA_NODEFER;
+    sigaction(SIGSEGV, &sa, &old_segv);
+    sa.sa_handler = on_watchdog;
+    sigaction(SIGALRM, &sa, &old_alrm);
+    struct itimerval on = {{0, 0}, {0, 400000}}, off = {{0, 0}, {0, 0}};
+    volatile int result = 0;
+    if(sigsetjmp(g_f_jmp, 1) == 0) {
+        mprotect(g_page, 4096, PROT_NONE);
+        setitimer(ITIMER_REAL, &on, NULL);
+        rtosc_arg_t a[1];
+        a[0].s = g_page;
+        switch(outer) {
+            case 'l': rte::tl_write_literal(tl, "/outer", 3, a); break;       // sig 3 = "s"
+            case 'a': rte::tl_write_array(tl, "/outer", "s", a); break;
+            default:  rte::tl_raw_write(tl, g_page); break;
+        }
+        setitimer(ITIMER_REAL, &off, NULL);
+        result = g_f_state == 2 ? 1 : 0;
+    } else {
+        setitimer(ITIMER_REAL, &off, NULL);
+        result = 2;
+    }
+    mprotect(g_page, 4096, PROT_READ | PROT_WRITE);
+    g_f_link = NULL;
+    sigaction(SIGSEGV, &old_segv, NULL);
+    sigaction(SIGALRM, &old_alrm, NULL);
+    return result;
+}
 
 static std::string op_tlink(const std::vector<std::string> &w)
 {
@@ -630,13 +760,18 @@ static std::string op_tlink(const std::vector<std::string> &w)
             // raw_write does not honour MaxMsg on the unchanged tree (defect F6 of C06): stay inside
             if(o.raw.size() > maxmsg) return "bad-op";
             for(int i = 0; i < 8; ++i) o.raw.push_back(0);
+        } else if(o.kind == 'f') {
+            if(f[0].size() != 3 || !strchr("law", f[0][1]) || !strchr("lawhr", f[0][2])) return "bad-op";
+            o.outer = f[0][1];
+            o.nested = f[0][2];
         } else if(!strchr("hrRp", o.kind)) return "bad-op";
     }
     rtosc::ThreadLink *tl = new rtosc::ThreadLink(maxmsg, nmsgs);
-    unsigned writes = 0, reads = 0, has = 0, empty = 0;
+    unsigned writes = 0, reads = 0, has = 0, empty = 0, nested = 0;
+    volatile int blocked = 0;
     uint64_t sum = 7;
     size_t total = 0;
-    RT_BEGIN();
+    rt_section([&] {
     for(TlOp &o : ops) {
         switch(o.kind) {
             case 'a': rte::tl_write_array(tl, (const char *) o.addr.data(), o.A.types.c_str(), o.A.a.data()); ++writes; break;
@@ -651,12 +786,22 @@ static std::string op_tlink(const std::vector<std::string> &w)
                 total += rte::tl_read(tl, o.k & 3, &sum); ++reads;
                 break;
             case 'p': total += rte::tl_peak(tl) ? 1 : 0; break;
+            case 'f': {
+                int r = interrupted_op(tl, o.outer, o.nested);
+                ++writes;
+                if(r == 1) ++nested;
+                if(r == 2) blocked = 1;
+                break;
+            }
         }
+        if(blocked) break;      // the link is unusable now (its lock is held by the abandoned operation)
     }
-    RT_END();
-    delete tl;
+    });
+    if(!blocked) delete tl;
     std::ostringstream o;
-    o << hits_str() << " w=" << writes << " r=" << reads << " has=" << has << " empty=" << empty << " bytes=" << total << " sum=" << hx64(sum);
+    o << hits_str();
+    if(blocked) o << " blocked=1";
+    o << " nested=" << nested << " w=" << writes << " r=" << reads << " has=" << has << " empty=" << empty << " bytes=" << total << " sum=" << hx64(sum);
     return o.str();
 }
 
@@ -670,9 +815,9 @@ static std::string op_meta(const std::vector<std::string> &w)
     const rtosc::Port *port = (*p)[(const char *) name.data()];
     if(!port) return "no-port";
     int r;
-    RT_BEGIN();
+    rt_section([&] {
     r = rte::meta_queries(port, (const char *) key.data(), (const char *) value.data());
-    RT_END();
+    });
     std::ostringstream o;
     o << hits_str() << " r=" << r;
     return o.str();
@@ -692,17 +837,25 @@ static std::string step(const std::string &line)
     if(w[0] == "meta") return op_meta(w);
     if(w[0] == "selftest") {
         // the interposition itself: these MUST be counted
-        RT_BEGIN();
-        void *volatile p = malloc(10);
-        free(p);
-        char *volatile q = new char[5];
-        delete[] q;
-        pthread_mutex_t mx = PTHREAD_MUTEX_INITIALIZER;
-        pthread_mutex_lock(&mx);
-        pthread_mutex_unlock(&mx);
-        std::string s(100, 'x');
-        RT_END();
-        return hits_str() + " len=" + std::to_string(s.size() + (p ? 0 : 1));
+        size_t len = 0;
+        rt_section([&] {
+            void *volatile p = malloc(10);
+            free(p);
+            char *volatile q = new char[5];
+            delete[] q;
+            pthread_mutex_t mx = PTHREAD_MUTEX_INITIALIZER;
+            pthread_mutex_lock(&mx);
+            pthread_mutex_unlock(&mx);
+            std::string s(100, 'x');
+            len = s.size() + (p ? 0 : 1);
+        });
+        std::string r = hits_str() + " len=" + std::to_string(len);
+        // ... and an exception leaving the section must be noticed
+        rt_section([&] { throw 1; });
+        r += std::string(" catches=") + (g_threw ? "1" : "0");
+        // the precondition of the call-graph model on the tables built with the library's own macros
+        r += " ports_checked=" + std::to_string(g_ports_checked) + empty_cb_str();
+        return r;
     }
     return "bad-op";
 }
@@ -711,5 +864,6 @@ int main(int argc, char **argv)
 {
     resolve_real();
     init_objects();
+    scan_callbacks(&rtt::Root::ports, "", 0);
     return run_lines(argc, argv, step);
 }
